@@ -156,4 +156,60 @@ example :
     (runSplit true FS.empty r).outs.map (·.1) = [12, 112, 212, 312, 412] ∧
     (runSplit true FS.empty r).fs 0 = ⟨some [1, 11, 21, 31, 41], none⟩ := by decide
 
+/-- **a filled bare Cache in Split is replayed exactly** (hoisted into a Source by `lena.core.alter_sequence` in
+`Split.__init__`): unless reading the first buffer of Split's input raises, the consumer receives the first
+`demand` stored values — whatever the source, the outer elements, the buffer size and `Split`'s rule for it. -/
+theorem split_bare_replay (patched : Bool) (fs : FS) (r : SplitRunSpec) (c : Nat) (xs : List Val) (k : Nat)
+    (hd : Distinct (r.outer ++ [.cache c false])) (hfile : (fs c).final = some xs) (hk : r.demand = k + 1)
+    (hnr : ∀ e, (drive (r.bufsize.getD (bigDemandOf fs r.src r.outer)) fs (build .source fs r.src r.outer)).end_ ≠ .raised e) :
+    (runSplitBare patched fs r c false).outs.map (·.1) = xs.take (k + 1) := by
+  have hx : cacheExists fs c false = true := by simp [cacheExists, hfile]
+  have hdo : Distinct r.outer := by
+    have := hd; simp only [Distinct, cacheIds_append, List.nodup_append] at this; exact this.1
+  have hc : c ∉ cacheIds r.outer := by
+    have := hd; simp only [Distinct, cacheIds_append, cacheIds, List.nodup_append] at this
+    intro h; exact this.2.2 c h c (by simp) rfl
+  have hm : ModeOk .source r.outer := Or.inl (by decide)
+  have ok := chainOk_build .source fs r.src r.outer hm hdo
+  generalize hb : r.bufsize.getD (bigDemandOf fs r.src r.outer) = b at hnr
+  have sp := drive_spec b fs _ ok
+  -- reading a buffer of the outer chain does not touch the file of `c`
+  have hofs : (drive b fs (build .source fs r.src r.outer)).fs c = fs c := by
+    apply sp.2.2.1
+    rw [build_eq' .source fs r.src r.outer hm]
+    intro hmem
+    rcases dumpIds_buildEls fs c r.outer 0 _ hmem with ⟨h0, _⟩ | ⟨pre, rc, post, e, _, _⟩
+    · simp [dumpIds] at h0
+    · exact hc (by rw [e]; simp [cacheIds_append, cacheIds])
+  have okl : ChainOk (drive b fs (build .source fs r.src r.outer)).fs ⟨[], .load c .fresh []⟩ :=
+    ⟨trivial, by simp [BotOk]⟩
+  have spl := drive_spec (k + 1) (drive b fs (build .source fs r.src r.outer)).fs ⟨[], .load c .fresh []⟩ okl
+  have hrem : rem (drive b fs (build .source fs r.src r.outer)).fs ⟨[], .load c .fresh []⟩ = ⟨xs, none⟩ := by
+    simp [rem, remB, storedFlow, hofs, hfile]
+  unfold DriveSpec at spl
+  rw [hrem] at spl
+  have l1 := spl.1
+  unfold runSplitBare
+  simp only [hx, if_true, hk, hb]
+  cases hoe : (drive b fs (build .source fs r.src r.outer)).end_ with
+  | raised e => exact absurd hoe (hnr e)
+  | stopped =>
+    skip
+    cases (drive (k + 1) (drive b fs (build .source fs r.src r.outer)).fs ⟨[], .load c .fresh []⟩).end_ with
+    | exhausted => simp only; split <;> exact l1
+    | stopped => exact l1
+    | raised e => exact l1
+  | exhausted =>
+    skip
+    cases (drive (k + 1) (drive b fs (build .source fs r.src r.outer)).fs ⟨[], .load c .fresh []⟩).end_ with
+    | exhausted => simp only; split <;> exact l1
+    | stopped => exact l1
+    | raised e => exact l1
+
+example :
+    let fs := FS.empty.set 0 ⟨some [7, 8, 9], none⟩
+    (runSplitBare true fs ⟨⟨[1, 2, 3, 4, 5], none⟩, [.map 1 none], [], some 2, 99, false⟩ 0 false).outs.map (·.1) = [7, 8, 9] ∧
+    (runSplitBare true fs ⟨⟨[1, 2, 3, 4, 5], none⟩, [.map 1 none], [], some 2, 99, false⟩ 0 false).end_ = .exhausted := by
+  decide
+
 end Lena.C18
